@@ -1,6 +1,86 @@
-(* C05 -- placeholder while the correspondence is being built *)
+(* C05 -- property theorems only; each is closed by a lemma of Lemmas.v / LemmasConc.v / Refuted.v.
+   G ranges over every configuration (parameters of any datatype, any omit interval, any export setting, any set
+   of subscribed connections), s over every cache state, ops over every history of wrapped reads / writes /
+   assignments / announceUpdate calls with any driver behaviour and any clock. *)
 From Coq Require Import List Arith ZArith Bool.
-Require Import FV.Gen.C05 FV.C05.Model.
-Theorem C05_source_facts : announce_in_updateLock = true.
-Proof. reflexivity. Qed.
+Import ListNotations.
+Require Import FV.Base.PyVal FV.Gen.C05 FV.C05.Model FV.C05.Lemmas FV.C05.LemmasConc FV.C05.Refuted.
+
+(* obligations on the facts regenerated from /repo (Gen/C05.v) *)
+Theorem C05_source_facts :
+  announce_in_updateLock = true /\ updateLock_is_rlock_per_module = true /\ store_then_notify = true /\
+  notify_only_if_exported = true /\ changed_includes_readerror = true /\ repeated_error_test = true /\
+  omit_test = true /\ read_wrapper_routes = true /\ write_wrapper_routes = true /\ assignment_routes = true /\
+  make_update_reads_cache = true /\ announce_update_broadcasts = true /\ omit_resolution = true /\
+  error_eq_ignores_methods = true /\ update_unchanged_codes = (0, 999999999, -1)%Z.
+Proof. repeat split; reflexivity. Qed.
 Print Assumptions C05_source_facts.
+
+(* activation: the snapshot a connection gets reports, for every parameter it covers, the cached entry *)
+Theorem C05_activation_coherent : forall G s, coherent G (activate_all G s).
+Proof. exact activate_coherent. Qed.
+Print Assumptions C05_activation_coherent.
+
+(* replaying the stream reproduces the cache, after any history.
+   Full statement (refuted on the pinned tree, see C05_refuted_error_text_stable):
+     ... replay p (msgs_of k s') = Some m /\ reports G (Some (s_heap s')) P p c m      (error text exactly as cached)
+   Proved: the same with [reports G None]: the message has the timestamp of the cached entry and either the value
+   (up to python ==, the comparison the funnel itself uses) or the SECoP name of the cached error object and the
+   text of that very object, rendered with some state of its raising-method list (the part finding
+   C05/error-text-changes-after-announce is about). *)
+Theorem C05_coherent_except_error_text : forall G s0 ops,
+  let s' := run G (activate_all G s0) ops in
+  forall k sc p P c,
+    nth_error (g_conns G) k = Some sc -> covers G sc p = true ->
+    nth_error (g_params G) p = Some P -> nth_error (s_cells s') p = Some c ->
+    exists m, replay p (msgs_of k s') = Some m /\ reports G None P p c m.
+Proof.
+  intros G s0 ops s' k sc p P c Hk Hc HP Hcell. rewrite replay_latest.
+  exact (run_coherent G ops _ (activate_coherent G s0) k sc p P c Hk Hc HP Hcell).
+Qed.
+Print Assumptions C05_coherent_except_error_text.
+
+(* order / no phantom state / nothing lost, for every operation from every state: what the operation appends to the
+   stream is built from the entry the cache holds right after it, and a covered parameter it is silent about did not
+   change for a client (same error object, same timestamp, value equal by ==) *)
+Theorem C05_order_no_phantom : forall G s o,
+  let s' := step G s o in
+  exists new, s_log s' = new ++ s_log s /\
+    (forall k m, In (k, m) new -> exists P c', m_p m = o_p o /\ nth_error (g_params G) (o_p o) = Some P /\
+        nth_error (s_cells s') (o_p o) = Some c' /\ m = render G (s_heap s') P (o_p o) c') /\
+    (forall k sc p c, nth_error (g_conns G) k = Some sc -> covers G sc p = true -> nth_error (s_cells s) p = Some c ->
+        (forall m, In (k, m) new -> m_p m <> p) ->
+        exists c', nth_error (s_cells s') p = Some c' /\ quiet_change c c').
+Proof. exact step_sound. Qed.
+Print Assumptions C05_order_no_phantom.
+
+(* a recovery from an error is always announced, whatever the value, the time and the omit interval *)
+Theorem C05_recovery_announced : forall G s o k sc p P c e c',
+  nth_error (g_conns G) k = Some sc -> covers G sc p = true -> nth_error (g_params G) p = Some P ->
+  nth_error (s_cells s) p = Some c -> c_err c = Some e ->
+  nth_error (s_cells (step G s o)) p = Some c' -> c_err c' = None ->
+  latest k p (s_log (step G s o)) = Some (render G (s_heap (step G s o)) P p c') /\
+  m_pay (render G (s_heap (step G s o)) P p c') = PVal (dt_export (p_dt P) (c_val c')) /\
+  In (k, render G (s_heap (step G s o)) P p c')
+     (firstn (length (s_log (step G s o)) - length (s_log s)) (s_log (step G s o))).
+Proof. exact recovery_announced. Qed.
+Print Assumptions C05_recovery_announced.
+
+(* any number of threads, any schedule: the region of announceUpdate between the clock read and the last send_reply
+   of one module is never executed by two threads at once -- given that the source encloses it by the lock *)
+Theorem C05_update_region_exclusive : forall G s progs sched,
+  announce_in_updateLock = true ->
+  exclusive G (cs_thr (crun G announce_in_updateLock (cinit s progs) sched)).
+Proof. intros G s progs sched ->. apply crun_exclusive, cinit_exclusive. Qed.
+Print Assumptions C05_update_region_exclusive.
+
+(* ... and a thread outside that region (before the lock) changes neither the cache nor any stream *)
+Theorem C05_outside_region_frame : forall G locked st ts i t st' t',
+  tstep G locked st ts i t = Some (st', t') ->
+  match t_pk t with KStart | KAcqA | KDrv => True | _ => False end ->
+  s_cells st' = s_cells st /\ s_log st' = s_log st.
+Proof. exact tstep_outside_frame. Qed.
+Print Assumptions C05_outside_region_frame.
+
+Print Assumptions C05_refuted_error_text_stable.
+Print Assumptions C05_refuted_without_update_lock.
